@@ -6,7 +6,7 @@
    writes) can leave during a fresh run or during a run resumed from such a
    file, any number of times.  A crash inside one robsd-step -W is outside the
    quantifier (C01/C02 cover the write itself). *)
-From Robsd Require Import Orch.ResumeSpec Orch.ResumeProofs.
+From Robsd Require Import Orch.ResumeSpec Orch.ResumeProofs Orch.ReportBridge Report.ReportSpec.
 Local Open Scope Z_scope.
 
 (* the sentence of the property, literally: last recorded non-skipped step if it
@@ -37,6 +37,13 @@ Theorem C03_orchestrator_files_are_good : forall steps, wf_steps steps ->
   forall f, reach steps f -> good steps f.
 Proof. exact reach_good. Qed.
 Print Assumptions C03_orchestrator_files_are_good.
+
+(* ... and that shape is exactly the hypothesis [reachable_seq] under which C05 proves the
+   status line of the report for the sequential modes *)
+Theorem C03_files_meet_report_hypothesis : forall steps, wf_steps steps ->
+  forall f, reach steps f -> reachable_seq (map to_report f).
+Proof. exact (fun steps W f R => good_meets_report_hypothesis steps f (reach_good steps W f R)). Qed.
+Print Assumptions C03_files_meet_report_hypothesis.
 
 Theorem C03_oracle_reflects : forall f x, resume_okb f x = true <-> resume_ok f x.
 Proof. exact resume_okb_spec. Qed.
